@@ -34,7 +34,7 @@ theorem scrub_inner (U q g i i' : String) (a1 a2 a' b b' : List (String × J)) (
   have hclean1 : clean [(U, ["id"])] [g]
         ((("id", .str i) :: a1) ++ (g, .obj ((("id", .str i') :: a') ++ b')) :: (a2 ++ b))
       = ((("id", .str i) :: a1) ++ (g, .obj (a' ++ b')) :: (a2 ++ b), false) := by
-    rw [clean, hlg]
+    rw [clean_cons, hlg]
     simp only [List.cons_append] at hclean0 ⊢
     simp only [hclean0, Bool.false_eq_true, ↓reduceIte]
     have := setKey_mid g (.obj (("id", .str i') :: (a' ++ b'))) (.obj (a' ++ b')) (("id", .str i) :: a1) (a2 ++ b) hpre
@@ -42,7 +42,7 @@ theorem scrub_inner (U q g i i' : String) (a1 a2 a' b b' : List (String × J)) (
     rw [this]
     simp
   simp only [cleanAll, List.foldl_cons, List.foldl_nil, unhash, List.isEmpty_cons, Bool.false_eq_true, ↓reduceIte, resN]
-  rw [clean]
+  rw [clean_cons]
   simp only [List.cons_append] at hclean1
   simp only [J.lookup, ↓reduceIte, List.cons_append, hclean1, Bool.false_eq_true, J.setKey, outN]
 
